@@ -13,7 +13,9 @@ Clauses(e) ==
   << <<"C11:OneHtmlOneHeadCharsetUserHeadListingThenEachDependencyOnceInResolvedOrder", at = 0>>,
      <<"C11:StartsWithDoctype", e.doctypeFirst>>,
      <<"C11:ReturnedDependenciesAreExactlyTheResolvedList",
-          Len(e.deps) = Len(R) /\ \A i \in 1..Len(R) : e.deps[i].name = R[i].name /\ e.deps[i].vstr = R[i].vstr>> >>
+          Len(e.deps) = Len(R) /\ \A i \in 1..Len(R) : e.deps[i].name = R[i].name /\ e.deps[i].vstr = R[i].vstr>>,
+     <<"DRIFT:DocumentCodeShape", Agree(<<Ev("other", "doctype", <<>>, <<>>)>>
+                                         \o ElementView(RenderedView(GenTreeCode(e.content, e.args, e.prefix, e.inclver))), e.events) = 0>> >>
 Judge(e) == [fail |-> FailList(Clauses(e)), at |-> Agree(DocEvents(e.content, e.args, e.prefix, e.inclver), e.events)]
 Init == tid \in 1..NChunks /\ verdict = "run"
 Check == /\ verdict = "run" /\ verdict' = "done" /\ LogChunk(tid, Judge) /\ UNCHANGED tid
